@@ -170,6 +170,8 @@ def common_obligations(ctx, repo, pid):
         # PARAM rule: an argument whose values are ignored (only its size / presence is read)
         from .rules.params import check_params
         check_params(ctx, repo, pid, scope, report_modules=mods)
+        from .rules.params import check_dispatch_keys
+        check_dispatch_keys(ctx, repo, pid, scope, report_modules=mods)
 
 
 def run_sentinels(ctx: Ctx, pid: str):
